@@ -282,6 +282,10 @@ def gen_C04():
     for name in ("NO_ERROR", "INTERNAL_ERROR", "FLOW_CONTROL_ERROR", "STREAM_LIMIT_ERROR", "STREAM_STATE_ERROR",
                  "FINAL_SIZE_ERROR", "FRAME_ENCODING_ERROR", "PROTOCOL_VIOLATION"):
         f.n("code_" + name.lower(), codes.get(name), "quic/s2n-quic-core/src/transport/error.rs")
+    f.n("code_crypto_buffer_exceeded", codes.get("CRYPTO_BUFFER_EXCEEDED"), "quic/s2n-quic-core/src/transport/error.rs")
+    # the receive buffer limit of a CRYPTO stream
+    f.const("crypto_rx_limit", "quic/s2n-quic-transport/src/space/crypto_stream.rs",
+            r"const\s+MAX_CRYPTO_BUFFER_SIZE\s*:\s*u64\s*=\s*([^;]+);")
     try:
         rows, server_rejects, ext_rows, rcodes = parse_matrix()
     except ValueError as ex:
